@@ -4,7 +4,7 @@
 
 use crate::ctx::{Ctx, Stream::F};
 
-pub const FAULT_KINDS: [&str; 11] = [
+pub const FAULT_KINDS: [&str; 12] = [
     "truncate",
     "bit-flip",
     "byte-burst",
@@ -16,6 +16,7 @@ pub const FAULT_KINDS: [&str; 11] = [
     "digit-edit",
     "ref-retarget",
     "replicated-block",
+    "number-copy",
 ];
 
 /// Positions of `N G R` reference tokens: (start of N, end of N, preceded by /Length).
@@ -164,6 +165,43 @@ pub fn apply_fault(ctx: &Ctx, img: &mut Vec<u8>, older: Option<&[u8]>, hot: &[(u
             for (i, c) in blk.iter().enumerate() {
                 if to + i < len {
                     img[to + i] = *c;
+                }
+            }
+        }
+        "number-copy" => {
+            // a small misdirected write: one digit run lands on a neighbouring one (duplicate object
+            // numbers or offsets in index blocks and cross-reference tables)
+            let p = position(ctx, len, hot);
+            let runs: Vec<(usize, usize)> = {
+                let mut v = Vec::new();
+                let mut i = p;
+                while i < len.min(p + 96) && v.len() < 6 {
+                    if img[i].is_ascii_digit() {
+                        let s0 = i;
+                        while i < len && img[i].is_ascii_digit() {
+                            i += 1;
+                        }
+                        v.push((s0, i));
+                    } else {
+                        i += 1;
+                    }
+                }
+                v
+            };
+            if runs.len() >= 2 {
+                let a = ctx.draw(F, runs.len() as u64, "copy-from") as usize;
+                let b = ctx.draw(F, runs.len() as u64, "copy-to") as usize;
+                if a != b {
+                    let src: Vec<u8> = img[runs[a].0..runs[a].1].to_vec();
+                    let (ds, de) = runs[b];
+                    if src.len() <= de - ds {
+                        let mut d = vec![b'0'; de - ds - src.len()];
+                        d.extend_from_slice(&src);
+                        img[ds..de].copy_from_slice(&d);
+                    } else {
+                        // longer number: replace the run (the image grows)
+                        img.splice(ds..de, src);
+                    }
                 }
             }
         }
